@@ -511,7 +511,7 @@ def call_arr_method(it, a: Arr, name, pos, kw):
     if name == "copy":
         b = Arr(a.shape, (lambda *i, f=a.fn: f(*i)), a.dtype, a.kind)
         b.rowfn = getattr(a, "rowfn", None)
-        for attr in ("in_range_of", "distinct", "sorted_strict", "is_arange"):
+        for attr in ("in_range_of", "distinct", "sorted_strict", "is_arange", "concat_of", "nonneg"):
             if hasattr(a, attr):
                 setattr(b, attr, getattr(a, attr))
         return b
